@@ -170,16 +170,7 @@ def cls_node_type_delims(r):
     return r.get("form") == "node" and (b"<" in part or b">" in part or part.endswith(b"\\"))
 
 
-def cls_predicate_id_type_marker(r):
-    """printed predicate / bound whose id starts with ^^type: or with @[ (the opening quote then reads as the literal
-    marker, resp. as a predicate with an empty id, in lexPredicateOrLiteral)"""
-    part = bytes.fromhex(r.get("part", ""))
-    return (r.get("form") in ("predicate", "bound") and (part.startswith(b"^^type:") or part.startswith(b"@["))
-            and b'"' not in part)
-
-
-PRINTED_CLASSES = [("C16-trailing-backslash", cls_trailing_backslash), ("C16-node-type-delims", cls_node_type_delims),
-                   ("C16-predicate-id-type-marker", cls_predicate_id_type_marker)]
+PRINTED_CLASSES = [("C16-trailing-backslash", cls_trailing_backslash), ("C16-node-type-delims", cls_node_type_delims)]
 
 
 def printed_excused(r, findings):
